@@ -581,6 +581,17 @@ def mkstr(chars) -> "str | SymStr":
     return SymStr(chars)
 
 
+def sym_join(parts):
+    """"".join(parts) for str / SymStr pieces (str.join is a C function and rejects proxies)."""
+    parts = list(parts)
+    if all(isinstance(x, str) for x in parts):
+        return "".join(parts)
+    out: list = []
+    for x in parts:
+        out.extend(chars_of(x))
+    return SymStr(tuple(out))
+
+
 def chars_of(s) -> tuple:
     if isinstance(s, SymStr):
         return s.ch
@@ -861,9 +872,30 @@ class SymStr:
             raise ValueError("invalid literal for int()")
         v = 0
         for c in ch:
-            if not e.branch(in_intervals(c, [(0x30, 0x39)])):
-                raise Unsupported("int() of non-ASCII-digit")
-            v = v * 10 + (e.concretize(c, 10) - 0x30)
+            if e.branch(in_intervals(c, [(0x30, 0x39)])):
+                v = v * 10 + (e.concretize(c, 10) - 0x30)
+                continue
+            # CPython's int() also reads every other Unicode decimal digit (category Nd: blocks of ten
+            # consecutive code points); anything else (spaces, underscores, letters) is not modelled
+            if isinstance(c, int):
+                import unicodedata
+
+                d = unicodedata.decimal(chr(c), None)
+                if d is None:
+                    raise Unsupported("int() of a character that is not a decimal digit")
+                v = v * 10 + d
+                continue
+            blocks = _nd_blocks()
+            if not e.branch(in_intervals(c, blocks)):
+                raise Unsupported("int() of a character that is not a decimal digit")
+            lo, hi = 0, len(blocks) - 1
+            while lo < hi:  # binary search for the block of ten the character lies in
+                mid = (lo + hi) // 2
+                if e.branch(c <= blocks[mid][1]):
+                    hi = mid
+                else:
+                    lo = mid + 1
+            v = v * 10 + (e.concretize(c, 10) - blocks[lo][0])
         return sign * v
 
     def replace(self, old, new, count=-1):
@@ -908,6 +940,20 @@ class SymStr:
 
     def __getattr__(self, name):
         raise Unsupported(f"SymStr.{name}")
+
+
+_ND = None
+
+
+def _nd_blocks():
+    """Non-ASCII Unicode decimal digits as blocks (zero digit, nine digit)."""
+    global _ND
+    if _ND is None:
+        import unicodedata
+
+        zeros = [cp for cp in range(0x80, MAXCP + 1) if unicodedata.decimal(chr(cp), None) == 0]
+        _ND = tuple((z, z + 9) for z in zeros if all(unicodedata.decimal(chr(z + k), None) == k for k in range(10)))
+    return _ND
 
 
 def _norm_index(i, n, default):
